@@ -227,6 +227,41 @@ def check_ulp(spec, ctx):
 
 
 @st.composite
+def open_ended_case(draw):
+    """half-open intervals (an event still going on, 'everything before t'): end points at +-infinity, grid values otherwise"""
+    a, b = sorted([draw(st.integers(0, 64)) / 8, draw(st.integers(0, 64)) / 8])
+    c, d = sorted([draw(st.integers(0, 64)) / 8, draw(st.integers(0, 64)) / 8])
+    which = draw(st.sampled_from(["i1_hi", "i1_lo", "both_hi", "i2_lo", "i1_both"]))
+    i1, i2 = [a, b], [c, d]
+    if which in ("i1_hi", "both_hi", "i1_both"):
+        i1[1] = "inf"
+    if which in ("i1_lo", "i1_both"):
+        i1[0] = "-inf"
+    if which == "both_hi":
+        i2[1] = "inf"
+    if which == "i2_lo":
+        i2[0] = "-inf"
+    if draw(st.booleans()):
+        i1, i2 = i2, i1
+    return {"i1": i1, "i2": i2, "thr": draw(st.sampled_from([None, 0.0, 0.5, 3.0])), "which": which}
+
+
+def check_open_ended(spec, ctx):
+    f = _mod().intervals_overlap
+    i1, i2 = [float(x) for x in spec["i1"]], [float(x) for x in spec["i2"]]
+    thr = spec["thr"]
+    ov = min(i1[1], i2[1]) - max(i1[0], i2[0])  # exact: grid values and infinities only
+    exp = ov >= (thr or 0.0)
+    kw = {} if thr is None else {"min_absolute_overlap": thr}
+    got = f(tuple(i1), tuple(i2), **kw)
+    ctx.case(spec, nontrivial=True, labels=[spec["which"], f"exp={exp}"], out={"got": bool(got)})
+    if bool(got) != exp:
+        ctx.fail(f"intervals_overlap({tuple(i1)}, {tuple(i2)}, {kw}) = {got}, the intersection has length {ov}", spec, bool(got), exp, kind="value")
+    if bool(f(tuple(i2), tuple(i1), **kw)) != bool(got):
+        ctx.fail("intervals_overlap not symmetric (open-ended intervals)", spec, None, None, kind="symmetry")
+
+
+@st.composite
 def error_case(draw):
     a, b = sorted([draw(st.integers(0, 64)), draw(st.integers(0, 64))])
     c, d = sorted([draw(st.integers(0, 64)), draw(st.integers(0, 64))])
@@ -374,7 +409,9 @@ def check_clip(spec, ctx):
 
     g = data.geometry_validate(geom_dict(spec["g"]), mode="dict")
     cs, ce = spec["clip"]
-    rec = data.Recording(path="a.wav", duration=max(ce, 1.0) + 1, channels=1, samplerate=8000)
+    # the clip's recording may be time-expanded (bat detectors): clip and geometry times are both in recording time, nothing to adjust
+    te = [1.0, 10.0, 0.5, 8.0][int(cs * 64 + len(str(spec["g"]["coordinates"]))) % 4]
+    rec = data.Recording(path="a.wav", duration=max(ce, 1.0) + 1, channels=1, samplerate=8000, time_expansion=te)
     clip = data.Clip(recording=rec, start_time=cs, end_time=ce)
     b = ref_bounds(g.type, g.coordinates)
     m = spec["min"]
@@ -421,6 +458,7 @@ SUBS = [
     Sub("intervals_grid", check_grid, strategy=grid_interval_case, quick=60000, thorough=500000, min_nontrivial=0.2),
     Sub("intervals_free", check_free, strategy=free_interval_case, quick=40000, thorough=300000, min_nontrivial=0.02),
     Sub("intervals_ulp_boundary", check_ulp, strategy=ulp_boundary_case, quick=12000, thorough=150000, min_nontrivial=0.5),
+    Sub("open_ended_intervals", check_open_ended, strategy=open_ended_case, quick=2000, thorough=20000),
     Sub("threshold_errors", check_errors, strategy=error_case, quick=4000, thorough=40000),
     Sub("geometry_overlap", check_geoms, strategy=geom_pair_case, quick=12000, thorough=150000, min_nontrivial=0.05),
     Sub("is_in_clip", check_clip, strategy=clip_case, quick=16000, thorough=200000, min_nontrivial=0.1),
